@@ -461,6 +461,8 @@ class C20(Prop):
                 add('handler-elements-withheld', '%d of %d elements with credit %d' % (len(obs['elems']), n_ok, total))
             if case['error_at'] is not None and case['error_at'] <= case['count'] and total > n_ok and not any(t.startswith('S:ERROR') for t in obs['terms']):
                 add('handler-error-lost', 'observable failed after %d elements; wire terminals %s' % (n_ok, obs['terms']))
+            if case['error_at'] is None and total > case['count'] and not any(t.startswith('S:PAYLOAD') for t in obs['terms']) and not any(t.startswith('S:ERROR') for t in obs['terms']):
+                add('handler-completion-lost', 'the observable completed after %d elements and the credit (%d) exceeds them, but no COMPLETE reached the wire (terminals %s)' % (case['count'], total, obs['terms']))
         else:
             vals = [e[1] for e in obs['got'] if e[0] == 'n']
             if vals != list(range(1, len(vals) + 1)) or len(vals) != obs['delivered']:
